@@ -200,7 +200,9 @@ def main():
         d = "/verif/seeded/%s" % mid
         res = json.load(open(res_p)) if os.path.exists(res_p) else None
         have = os.path.exists(d + "/meta.json")
-        if res and res.get("demo_clean_rc") == 0 and res.get("demo_mutant_rc") == 1 and res.get("suite_rc") == 0:
+        src_diff = k if isinstance(k, str) else "%s/_mut/m%d.diff" % (wt, k)
+        if res and res.get("demo_clean_rc") == 0 and res.get("demo_mutant_rc") == 1 and res.get("suite_rc") == 0 and (
+                os.path.exists(src_diff) or not have):
             os.makedirs(d, exist_ok=True)
             shutil.copy(k if isinstance(k, str) else "%s/_mut/m%d.diff" % (wt, k), d + "/patch.diff")
             shutil.copy("/tmp/vm_results/%s/demo.py" % mid, d + "/demo.py")
